@@ -7,9 +7,15 @@ package main
 // server enforces (C11 server family).
 
 import (
+	"encoding/json"
 	"fmt"
 	"html"
+	"net/http"
+	"net/http/httptest"
 	"os"
+	"reflect"
+	"regexp"
+	"testing/fstest"
 	"path/filepath"
 	"sort"
 	"strings"
@@ -26,6 +32,8 @@ import (
 	"golang.org/x/telemetry/internal/verifsim/ref/refstack"
 	"golang.org/x/telemetry/internal/verifsim/simrt"
 )
+
+var codeItem = regexp.MustCompile(`<code>.*?</code>`)
 
 func scenarioViewer(c *hlib.RunCtx) *hlib.Violation {
 	t := c.Tape
@@ -209,6 +217,70 @@ func scenarioViewer(c *hlib.RunCtx) *hlib.Violation {
 			}
 		}
 		s.Probe("viewer-report-judged")
+	}
+	// The pages of one viewer process. What a page calls excluded depends on the
+	// request (its ?config= value), the configuration as it is on disk at that
+	// moment and the directory - not on the pages served before. Each page of a
+	// long-lived handler is compared with the page a handler made for this one
+	// request gives (the flags and summaries of every file and report, printed by
+	// a template of the harness; the lines are compared as a set).
+	if viol == nil && t.Bool(1, 2) {
+		telemetry.Default = telemetry.NewDir(c.Dir)
+		cfgPath := filepath.Join(c.Dir, "viewer-config.json")
+		writeCfg := func(cv *mgen.CfgVersion) {
+			js, _ := json.Marshal(cv.Real)
+			os.WriteFile(cfgPath, js, 0666)
+		}
+		writeCfg(cfg)
+		tmpl := fstest.MapFS{"index.html": &fstest.MapFile{Data: []byte(`{{range .Files}}{{$id := .ID}}FILE {{$id}} meta={{.ActiveMeta}} summary={{.Summary}}
+{{range .Counts}}FILE {{$id}} count {{printf "%q" .Name}} active={{.Active}}
+{{end}}{{range .Stacks}}FILE {{$id}} stack {{printf "%q" .Name}} {{printf "%q" .Trace}} active={{.Active}}
+{{end}}{{end}}{{range .Reports}}{{$id := .ID}}{{range .Programs}}REPORT {{$id}} {{.Program}} {{.Version}} {{.GoVersion}} {{.GOOS}} {{.GOARCH}} summary={{.Summary}}
+{{end}}{{end}}`)}}
+		get := func(h http.Handler, query string) (int, []string) {
+			rec := httptest.NewRecorder()
+			h.ServeHTTP(rec, httptest.NewRequest("GET", "/"+query, nil))
+			lines := strings.Split(rec.Body.String(), "\n")
+			for i, l := range lines {
+				// (the names inside a summary come in no particular order)
+				names := codeItem.FindAllString(l, -1)
+				sort.Strings(names)
+				lines[i] = codeItem.ReplaceAllString(l, "_") + " | " + strings.Join(names, " ")
+			}
+			sort.Strings(lines)
+			return rec.Code, lines
+		}
+		long := view.VerifIndexHandler(cfgPath, tmpl)
+		npages := 2 + t.Draw(3)
+		for k := 0; k < npages && viol == nil; k++ {
+			// between pages the configuration on disk may change: a new version, a
+			// file that cannot be read for a while, the old one back
+			switch t.Biased(4, 1, 2) {
+			case 1:
+				writeCfg(mgen.GenConfig(t, fmt.Sprintf("v0.%d.0", k+2)))
+				s.Probe("viewer-config-changed-between-pages")
+			case 2:
+				os.Remove(cfgPath)
+				s.Probe("viewer-config-unreadable")
+			case 3:
+				writeCfg(cfg)
+			}
+			query := []string{"", "?config=latest", "?config=empty", "?config=v0.1.0", "?config="}[t.Draw(5)]
+			code, got := get(long, query)
+			wcode, want := get(view.VerifIndexHandler(cfgPath, tmpl), query)
+			s.Logf("page", "%d %q -> %d (%d lines)", k, query, code, len(got))
+			if code != wcode || !reflect.DeepEqual(got, want) {
+				diff := ""
+				for i := 0; i < len(got) && i < len(want); i++ {
+					if got[i] != want[i] {
+						diff = fmt.Sprintf("%q, a viewer started for this page says %q", got[i], want[i])
+						break
+					}
+				}
+				fail("viewer-page-depends-on-earlier-pages", "page %d (%q) of a running viewer: status %d, %d lines; a viewer started for this page alone: status %d, %d lines; first difference: %s", k+1, query, code, len(got), wcode, len(want), diff)
+			}
+			s.Probe("viewer-page-compared")
+		}
 	}
 	c.Sample = map[string]any{"files": sample}
 	return viol
